@@ -145,31 +145,28 @@ def estimate_forwarding(ctx, rep, clause):
 def table_selection(ctx, rep, clause):
     program = ctx.program
     f = program.func(f'{ISO}:_calculate_elemental_distribution')
-    sel = None
-    for n in walk_own(f.node):
-        if isinstance(n, ast.If) and 'use_neutron_count' in norm_stmt(n.test):
-            sel = n
-    ok = False
-    if sel is not None:
-        a = ' '.join(norm_stmt(s) for s in sel.body)
-        b = ' '.join(norm_stmt(s) for s in sel.orelse)
-        pos = norm_stmt(sel.test) in ('use_neutron_count is True', 'use_neutron_count', 'use_neutron_count == True')
-        if not pos:
-            a, b = b, a
-        ok = 'NEUTRON_OFFSETS' in a and 'ISOTOPE_MASSES' in b and 'NEUTRON_OFFSETS' not in b
-    # no read of either isotope table outside that selection (a shortcut would pick a table for both views)
-    outside = []
-    for n in walk_own(f.node):
-        if isinstance(n, ast.Attribute) and n.attr.startswith('ATOMIC_SYMBOL_TO_ISOTOPE') and \
-                (sel is None or not any(n is x for x in ast.walk(sel))):
-            outside.append(n)
-    ob(rep, 'SIB-table', f.fq, 'every read of an isotope table is under the use_neutron_count selection', not outside,
-       'one selection point', f'`{norm_stmt(outside[0]) if outside else ""}` is read outside the use_neutron_count test: '
-       f'the neutron-offset view and the mass view would both use it on that path', f.loc(outside[0]) if outside else
-       f.loc(), clause)
+    # the tables read when the option is on / off, whatever form the selection takes (an if statement, a conditional
+    # expression, a local that holds the chosen table): the function specialised for both values
+    from ..guards import GuardEval, specialise, resolve
+    reads = {}
+    for val in (True, False):
+        ge = GuardEval({'use_neutron_count': val})
+        seen = set()
+        for st in specialise(f.node.body, ge):
+            for x in ast.walk(resolve(st, ge)):
+                if isinstance(x, ast.Attribute) and x.attr.startswith('ATOMIC_SYMBOL_TO_ISOTOPE'):
+                    seen.add(x.attr)
+        reads[val] = seen
+    both = reads[True] & reads[False]
+    ob(rep, 'SIB-table', f.fq, 'every read of an isotope table is under the use_neutron_count selection', not both,
+       'one selection point', f'`{sorted(both)[0] if both else ""}` is read whether use_neutron_count is set or not: '
+       f'the neutron-offset view and the mass view would both use it', f.loc(), clause)
+    ok = bool(reads[True]) and all('NEUTRON_OFFSETS' in t for t in reads[True]) and bool(reads[False]) and \
+        all('ISOTOPE_MASSES' in t and 'NEUTRON_OFFSETS' not in t for t in reads[False])
     ob(rep, 'SIB-table', f.fq, 'neutron-offset table under use_neutron_count, mass table otherwise', ok,
-       'one test selects between the two sibling tables', 'the isotope tables are selected by the wrong branch', 
-       f.loc(sel) if sel is not None else f.loc(), clause)
+       'one test selects between the two sibling tables',
+       f'with use_neutron_count set the function reads {sorted(reads[True])}, without it {sorted(reads[False])}: the '
+       f'isotope tables are selected by the wrong branch', f.loc(), clause)
     g = program.func(f'{ISO}:_scale_isotope_abundances')
     div = [n for n in walk_own(g.node) if isinstance(n, ast.If) and 'is_abundance_sum' in norm_stmt(n.test)]
     cg = Canon(g.node)
